@@ -5,7 +5,7 @@ CONSTANTS
   Delegators = {"D1"}
   Specs = {"S1"}
   Plans = {"PL1"}
-  MaxOps = 7
+  MaxOps = 5
   GenHist = FALSE
   FixRenew = TRUE
   Bias = "all"
